@@ -198,7 +198,6 @@ def params(tier):
         ps.append({"h": "H2", "posters": [["lifo"], ["fifo"]]})
         ps.append({"h": "H1", "posters": [["fifo"], ["lifo"], ["fifo"]]})
         ps.append({"h": "H5", "posters": [["fifo", "fifo"], ["lifo", "fifo"]], "qsize": 2})
-        ps.append({"h": "H1", "posters": [["fifo"], ["lifo"]], "bound": 3})
     return ps
 
 
@@ -211,6 +210,12 @@ def run(tier):
     lin.selftest()
     bound = 2
     st = explore.explore(C04("line"), params(tier), bound)
+    if tier != "quick":     # one harness at bound 3, under a wall-clock budget (reported as capped if it runs out)
+        st3 = explore.explore(C04("line"), [{"h": "H1", "posters": [["fifo"], ["lifo"]], "bound": 3}], 3, budget_s=1500)
+        capped2 = st.capped
+        st.merge(st3)
+        st.capped = capped2         # the bound-2 claim does not depend on whether the bound-3 extra ran out of budget
+        bound3 = {"executions": st3.executions, "completed": not st3.capped, "budget_s": 1500}
     # the same two-poster harnesses at instruction granularity in the token-protocol code (LockingDeque, run_event): a
     # preemption between two calls on one source line (e.g. between qsize() and len() of one comparison) is invisible at
     # line granularity.  Quick: hybrid bound = two preemptions of which at most one inside a line; thorough: both anywhere.
@@ -227,6 +232,8 @@ def run(tier):
          "H4 + fabric publication, H5 overflow; plus %d harnesses at instruction granularity in LockingDeque/run_event (every "
          "shared-access-capable bytecode is a scheduling point; two preemptions, at most one of them inside a source line; "
          "thorough: one harness with both anywhere)" % len(ips))
+    if tier != "quick":
+        res.coverage["bound3_extra"] = bound3
     need = 2
     if len(st.outcomes) < need:
         from mc.common import ToolingError
